@@ -432,3 +432,58 @@ C15 = dict(
     assumptions=["loaders are deterministic and backed by the environment's store; a loader never returns the same entity twice"],
 )
 FAMILIES["C15"] = C15
+
+
+# ----------------------------------------------------------------- C16 / C17
+def _slice_case(world, c, i):
+    return dict(id=i, pols=c["pols"])
+
+
+def _slice_setup(world):
+    return dict(setup=dict(schema=world["schema"], envs=world["envs"]))
+
+
+def _mutate_level(ev):
+    if ev.get("ev") != "Slice":
+        return None
+    ev = json.loads(json.dumps(ev))
+    r = ev["envs"][0]["full"]
+    r["decision"] = "Deny" if r["decision"] == "Allow" else "Allow"
+    return ev
+
+
+def _mutate_manifest(ev):
+    if ev.get("ev") != "Slice" or not ev.get("strict") or "manifest" not in ev["envs"][0]:
+        return None
+    ev = json.loads(json.dumps(ev))
+    r = ev["envs"][0]["manifest"]
+    r["decision"] = "Deny" if r["decision"] == "Allow" else "Allow"
+    return ev
+
+
+_SLICE_RULE = ("G: 300 strictly valid policy sets over Sc2: dereference chains of depth 1-4 (through present and record-less entities) placed bare, through a record "
+               "literal, as a set element, in if branches/guards, as operand of in / hasTag / getTag / has / ==, in if-then-else producing an entity, in sets of entities and in records "
+               "containing entities, alone and combined with forbid policies, plus the 178 TPE policy sets; 10 conformant environments. ")
+C16 = dict(
+    family="slice", trace_module="Trace_Slice.tla", trace_env=dict(WHICH="level"),
+    models=[dict(name="mc_slice", module="MC_Slice.tla", cfg=dict(quick="MC_Slice.cfg", thorough="MC_Slice.cfg"),
+                 cases=_slice_case, setup=_slice_setup)],
+    nontrivial=lambda ev: ev.get("ev") == "Slice",
+    key=lambda ev: ev.get("pols"), mutate=_mutate_level, chunk=40,
+    rule=_SLICE_RULE + "For n = 0..4: validate_with_level verdict; the level-n slice (computed by Slicing!LevelSlice in TLC and shipped to the harness as uid sets) is "
+         "authorised by the real authorizer; TLC checks accepted(n) => slice adequate (decision, reasons, errors) on every environment, accepted(n) => accepted(n+1), and that "
+         "the real responses on slices equal the reference.",
+    assumptions=["the weaker, literal reading of 'within n hops' (entities at distance <= n kept with their data)"],
+)
+C17 = dict(
+    family="slice", trace_module="Trace_Slice.tla", trace_env=dict(WHICH="manifest"),
+    models=[dict(name="mc_slice", module="MC_Slice.tla", cfg=dict(quick="MC_Slice.cfg", thorough="MC_Slice.cfg"),
+                 cases=_slice_case, setup=_slice_setup)],
+    nontrivial=lambda ev: ev.get("ev") == "Slice" and ev.get("strict"),
+    key=lambda ev: ev.get("pols"), mutate=_mutate_manifest, chunk=40,
+    rule=_SLICE_RULE + "compute_entity_manifest + slice_entities are run by the harness; TLC checks that the manifest exists for strictly valid sets, that the sliced store is a "
+         "sub-store of the full store, and that the reference authorization over the sliced store and the real response over it equal the full-store response.",
+    assumptions=["the manifest itself is a black box; only the adequacy of the slice it produces is specified"],
+)
+FAMILIES["C16"] = C16
+FAMILIES["C17"] = C17
